@@ -21,6 +21,8 @@ ndim_max = 3
 # TODO: With python 3.10, use strict=True zip kwarg
 sparse_array_imath = """
 def __i{name}__(self, other):
+    for i in self.rows:
+        if getattr(i, 'read_only', False): raise ValueError('assignment destination is read-only')
     if other.__class__ is SparseArray:
         rows = self.rows
         other_rows = other.rows
@@ -545,6 +547,8 @@ class SparseArray:
         return new
     
     def clear(self):
+        for i in self.rows:
+            if getattr(i, 'read_only', False): raise ValueError('assignment destination is read-only')
         for i in self.rows: i.set.clear()
     
     def copy(self):
@@ -672,6 +676,8 @@ class SparseArray:
         return False
     
     def remove_negatives(self):
+        for i in self.rows:
+            if getattr(i, 'read_only', False): raise ValueError('assignment destination is read-only')
         for i in self.rows: i.remove_negatives()
     
     def shares_data_with(self, other):
@@ -810,6 +816,8 @@ class SparseArray:
     
     def __setitem__(self, index, value):
         rows = self.rows
+        for i in rows:
+            if getattr(i, 'read_only', False): raise ValueError('assignment destination is read-only')
         value, vd, _ = reduce_ndim(value)
         if index.__class__ is tuple:
             m, n = unpack_index(index, self.ndim)
@@ -1413,6 +1421,7 @@ class SparseVector:
             raise TypeError(f'cannot convert {type(obj).__name__} object to a sparse array')
     
     def mix_from(self, others):
+        if self.read_only: raise ValueError('assignment destination is read-only')
         if others: 
             other_dcts = [i.dct for i in others]
             dct = self.dct
@@ -1509,6 +1518,7 @@ class SparseVector:
             return dct.get(index, 0.)
     
     def remove_negatives(self):
+        if self.read_only: raise ValueError('assignment destination is read-only')
         dct = self.dct
         for i in tuple(dct): 
             if dct[i] < 0.: del dct[i]
@@ -1607,6 +1617,7 @@ class SparseVector:
         return SparseVector.from_dict(self.dct.copy(), self.size)
     
     def copy_like(self, other):
+        if self.read_only: raise ValueError('assignment destination is read-only')
         dct = self.dct
         if dct is other.dct: return
         dct.clear()
